@@ -180,7 +180,7 @@ int main(){
 	std::string line;
 	while(std::getline(std::cin, line)){
 		std::vector<std::string> t = vh::tokens(line);
-		if(t.empty()){ std::cout << "\n"; continue; }
+		if(t.empty()){ std::cout << "@ \n"; continue; }
 		Args A;
 		std::string res;
 		if(!allInt(t, 1, A.a)) res = "bad-op";
@@ -188,7 +188,7 @@ int main(){
 		else if(t[0] == "lda") res = opLda(A, false);
 		else if(t[0] == "wlda") res = opLda(A, true);
 		else res = "bad-op";
-		std::cout << res << std::endl;
+		std::cout << "@ " << res << std::endl;   // "@ " marks protocol lines (BLAS may print warnings to stdout)
 	}
 	return 0;
 }
